@@ -15,7 +15,7 @@ LEVEL_TEXT = ("Bounded stand-in (deductive obligations for cigar_prefix_length /
               "nothing may be recorded for variants outside the aligned blocks.")
 LEVEL_NOTE = "Seeded sampling. Trusted: scenario generator. 'Unshiftable' as defined in DESIGN.md (C06)."
 TECHNIQUE = "bounded runtime contract on ReadSetReader.read (re-alignment and CIGAR paths) over generated BAMs with known haplotype of origin per read"
-D_MODULES = []
+D_MODULES = ["contracts.variants_py"]
 EXPLANATION = LEVEL_TEXT
 TRUSTED_BASE = ["scenario/bam.py"]
 ASSUMPTIONS = ["variants >= 12 bp apart, indels left-normalised; reads whose end falls inside a variant's REF span are not judged at that variant"]
